@@ -951,9 +951,9 @@ def n_continuation_col0(src):
 
 
 NEUTRALISERS = [
-    ("C13:backslash-continuation-at-column-0", n_continuation_col0),
     # Only the finding that is still open. The neutralisers of the repaired findings (F08, F18, F19, F21,
-    # F22, F23) are deliberately NOT consulted any more: those shapes must now clean correctly.
+    # F22, F23, F33 = continuation line at column 0) are deliberately NOT consulted any more: those shapes
+    # must now clean correctly.
     ("C13:code-after-main-guard-deleted", n_after_guard),
 ]
 
